@@ -75,8 +75,15 @@ def run(tier, seed):
     for m in mism:
         ctx.violation(dict(m["cell"]), m["symptom"], {"case": m["case"], "input": cases[m["case"]], "report": m,
                                                       "program": FlatCase(m["case"], cases[m["case"]]).program()[:6000]})
-    ctx.cov["evaluations"] = len(recs)
-    ctx.cov["traces_validated_against_impl"] = ok
+    # second stream: bare / parameterised / nested #[parent] members
+    from checks import parent_stream as ps
+    pcases, pobs, pfail, pstats = ps.run_stream(ctx, tier)
+    precs = ps.records(pcases, pobs, pfail, {"leaf"})
+    pok = ps.judge_into(ctx, pcases, precs, "c03-parent")
+    ctx.cov["parent_stream_programs"] = len(pcases)
+    ctx.cov["parent_stream_evaluations"] = len(precs)
+    ctx.cov["evaluations"] = len(recs) + len(precs)
+    ctx.cov["traces_validated_against_impl"] = ok + pok
     ctx.cov["programs"] = len(cases)
     ctx.cov["programs_compiled"] = stats.get("compiled")
     ctx.cov["model_predicted_double_construction"] = sum(1 for c in cases if c["dup"])
@@ -88,7 +95,8 @@ def run(tier, seed):
                        "against generated nested counterpart trees D / DX (DX has an extra leaf in every node) and all 12 conversions are executed; "
                        "TLC judges every nested leaf (Into), flat leaf (From), every untouched leaf of the pre-existing tree (into_existing), error "
                        "propagation from `?` sites, and that rustc's E0062 (field specified more than once) occurs exactly where the algorithm model "
-                       "predicts a double construction.  Non-trivial = at least one member has a child path.")
+                       "predicts a double construction.  Second stream (MC_Parent): bare #[parent] (the parent type derives its own conversions), parameterised and nested "
+                       "#[parent(...)] with renames, at every position among the other members; leaves of every conversion judged by Trace_Parent.  Non-trivial = at least one member has a child path.")
     ctx.cov["exhaustive"] = True
     for r in [x for x in recs if x["prop"] == "C03"][:2]:
         ctx.sample({"input": r["in"], "kind": r["k"], "fallible": r["f"], "observed": r["obs"]})
